@@ -168,7 +168,7 @@ Print Assumptions C09_no_false_alarm_section.
 Theorem C09_no_false_alarm_volume : forall pol ffs3 h buf files h' nb,
   asm_vol pol ffs3 h buf files = Ok (h', nb) -> files <> [] -> v_resizable h = false ->
   pol = fv_polarity (v_attrs h) -> zlen nb < 2 ^ 63 ->
-  v_hdrlen h = 56 + 8 * (zlen (v_blocks h) + 1) -> v_rev h = 2 -> v_sig h = c09_fv_signature ->
+  v_hdrlen h = 56 + 8 * (nblocks (v_blocks h) + 1) -> v_rev h = 2 -> v_sig h = c09_fv_signature ->
   known_fv_guid (v_guid h) = true ->
   validate_vol h' nb = Ok [].
 Proof. exact no_false_alarm_volume. Qed.
@@ -179,7 +179,7 @@ Theorem C09_no_false_alarm_volume_any : forall pol ffs3 h buf files h' nb,
   asm_vol pol ffs3 h buf files = Ok (h', nb) -> files <> [] ->
   (forall c s rest, v_blocks h = (c, s) :: rest -> 0 < s < 2 ^ 32) -> zlen nb < 2 ^ 63 ->
   pol = fv_polarity (v_attrs h) ->
-  v_hdrlen h = 56 + 8 * (zlen (v_blocks h) + 1) -> v_rev h = 2 -> v_sig h = c09_fv_signature ->
+  v_hdrlen h = 56 + 8 * (nblocks (v_blocks h) + 1) -> v_rev h = 2 -> v_sig h = c09_fv_signature ->
   known_fv_guid (v_guid h) = true ->
   validate_vol h' nb = Ok [].
 Proof. exact no_false_alarm_volume_any. Qed.
